@@ -1,2 +1,330 @@
-pub fn enumerate(_args: &vlib::Args) {}
-pub fn edits(_args: &vlib::Args) {}
+//! C19 (a): the REAL semantic string types against the TLC oracle table (all byte strings up to a
+//! length) and random edit sequences recorded for trace validation.
+
+use std::collections::{HashMap, HashSet};
+
+use iceoryx2::node::node_name::NodeName;
+use iceoryx2::service::service_name::ServiceName;
+use iceoryx2_bb_container::semantic_string::SemanticString;
+use iceoryx2_bb_system_types::file_name::{FileName, RestrictedFileName};
+use iceoryx2_bb_system_types::file_path::FilePath;
+use iceoryx2_bb_system_types::path::Path;
+use vlib::trace::TraceWriter;
+use vlib::{Args, Value, json};
+
+pub const TYPES: [&str; 6] = ["FileName", "Path", "FilePath", "ServiceName", "NodeName", "RFileName2"];
+
+/// constructor verdict of the real type: None = not constructible from these bytes (the &str based
+/// types cannot be fed invalid UTF-8), Some((accepted, bytes read back))
+fn construct(ty: &str, b: &[u8]) -> Option<(bool, Vec<u8>)> {
+    fn sem<const N: usize, T: SemanticString<N>>(b: &[u8]) -> Option<(bool, Vec<u8>)> {
+        match T::new(b) {
+            Ok(v) => Some((true, v.as_bytes().to_vec())),
+            Err(_) => Some((false, vec![])),
+        }
+    }
+    match ty {
+        "FileName" => sem::<255, FileName>(b),
+        "Path" => sem::<255, Path>(b),
+        "FilePath" => sem::<255, FilePath>(b),
+        "RFileName2" => sem::<2, RestrictedFileName<2>>(b),
+        "ServiceName" => {
+            let s = core::str::from_utf8(b).ok()?;
+            match ServiceName::new(s) {
+                Ok(v) => Some((true, v.as_str().as_bytes().to_vec())),
+                Err(_) => Some((false, vec![])),
+            }
+        }
+        "NodeName" => {
+            let s = core::str::from_utf8(b).ok()?;
+            match NodeName::new(s) {
+                Ok(v) => Some((true, v.as_str().as_bytes().to_vec())),
+                Err(_) => Some((false, vec![])),
+            }
+        }
+        _ => panic!("unknown type {ty}"),
+    }
+}
+
+fn code(classes: &[u8]) -> u32 {
+    let mut c = (classes.len() as u32) << 12;
+    for (i, k) in classes.iter().enumerate() {
+        c |= (*k as u32) << (8 - 4 * i);
+    }
+    c
+}
+
+pub fn enumerate(args: &Args) {
+    let oracle: Value = serde_json::from_str(&std::fs::read_to_string(args.get("oracle").expect("--oracle")).unwrap()).unwrap();
+    let max_len = args.num("len", 2) as usize;
+    let sample = args.num("sample", 0);
+    let map: Vec<u8> = oracle["map"].as_array().unwrap().iter().map(|v| v.as_u64().unwrap() as u8).collect();
+    assert_eq!(map.len(), 256);
+    let mut accept: HashMap<&str, HashSet<u32>> = HashMap::new();
+    for ty in TYPES {
+        let set = oracle["accept"][ty]
+            .as_array()
+            .unwrap_or_else(|| panic!("oracle has no type {ty}"))
+            .iter()
+            .map(|t| code(&t.as_array().unwrap().iter().map(|v| v.as_u64().unwrap() as u8).collect::<Vec<_>>()))
+            .collect();
+        accept.insert(ty, set);
+    }
+    let mut evaluated = 0u64;
+    let mut strings = 0u64;
+    let mut skipped = 0u64;
+    let mut mismatches = 0u64;
+    let mut first: Vec<Value> = vec![];
+    let mut accepted: HashMap<&str, u64> = HashMap::new();
+    let mut tuples: HashSet<u32> = HashSet::new();
+    let mut check = |b: &[u8]| {
+        strings += 1;
+        let cls: Vec<u8> = b.iter().map(|x| map[*x as usize]).collect();
+        let c = code(&cls);
+        tuples.insert(c);
+        for ty in TYPES {
+            let exp = accept[ty].contains(&c);
+            match construct(ty, b) {
+                None => skipped += 1,
+                Some((acc, back)) => {
+                    evaluated += 1;
+                    if acc {
+                        *accepted.entry(ty).or_insert(0) += 1;
+                    }
+                    let bad_verdict = acc != exp;
+                    let bad_rt = acc && back != b;
+                    if bad_verdict || bad_rt {
+                        mismatches += 1;
+                        if first.len() < 10 {
+                            first.push(json!({"ty":ty,"bytes":b,"classes":cls,"oracle_accepts":exp,"real_accepts":acc,
+                                "read_back":back,"kind": if bad_verdict {"verdict"} else {"roundtrip"}}));
+                        }
+                    }
+                }
+            }
+        }
+    };
+    check(&[]);
+    for a in 0..=255u8 {
+        check(&[a]);
+    }
+    if max_len >= 2 {
+        for a in 0..=255u8 {
+            for b in 0..=255u8 {
+                check(&[a, b]);
+            }
+        }
+    }
+    if max_len >= 3 {
+        for a in 0..=255u8 {
+            for b in 0..=255u8 {
+                for c in 0..=255u8 {
+                    check(&[a, b, c]);
+                }
+            }
+        }
+    } else if sample > 0 {
+        let mut rng = vlib::rng::Rng::new(vlib::seed_from_env().wrapping_mul(31).wrapping_add(5));
+        // half uniform, half biased towards the bytes that matter
+        let hot: [u8; 16] = [0, 1, 31, 32, b'.', b'/', b'\\', b'*', b'<', b':', b'a', 127, 128, 0xC3, 0xA9, 255];
+        for i in 0..sample {
+            let mut s = [0u8; 3];
+            for x in s.iter_mut() {
+                *x = if i % 2 == 0 { rng.below(256) as u8 } else { *rng.pick(&hot) };
+            }
+            check(&s);
+        }
+    }
+    println!(
+        "{}",
+        json!({"max_len":max_len,"sample":sample,"strings":strings,"evaluated":evaluated,"skipped_not_utf8":skipped,
+            "class_tuples_covered":tuples.len(),"mismatches":mismatches,"first":first,"accepted":accepted})
+    );
+}
+
+// ------------------------------------------------------------------------------------------------
+
+fn rand_string(rng: &mut vlib::rng::Rng, cap: usize, utf8_only: bool) -> Vec<u8> {
+    let len = match rng.below(10) {
+        0 => 0,
+        1 => 1,
+        2 => 2,
+        3 => cap.saturating_sub(1),
+        4 => cap,
+        5 => cap + 1,
+        6 => cap + rng.below(40) as usize,
+        _ => rng.below(cap as u64 + 1) as usize,
+    };
+    let pieces: [&[u8]; 24] = [
+        b"a", b"b", b"Z", b"0", b"_", b"-", b" ", b".", b"..", b"/", b"/.", b"/..", b"//", b"\\", b":", b"~",
+        b"iox2://", b"iox2:/", b"abc", b"x.y", b"\x7f", b"tmp", b"node", b"svc",
+    ];
+    let evil: [&[u8]; 10] = [b"\0", b"\x01", b"\x1f", b"*", b"?", b"<", b">", b"|", b"\"", b"\n"];
+    let hi: [&[u8]; 4] = ["\u{e9}".as_bytes(), "\u{20ac}".as_bytes(), b"\x80", b"\xff"];
+    let spice = rng.below(4); // 0,1: clean  2: one evil byte  3: a high byte
+    let mut s: Vec<u8> = vec![];
+    while s.len() < len {
+        let p: &[u8] = pieces[rng.below(pieces.len() as u64) as usize];
+        s.extend_from_slice(p);
+    }
+    s.truncate(len);
+    if !s.is_empty() {
+        if spice == 2 {
+            let p = rng.below(s.len() as u64) as usize;
+            s[p] = rng.pick(&evil)[0];
+        } else if spice == 3 {
+            let h = if utf8_only { hi[rng.below(2) as usize] } else { *rng.pick(&hi) };
+            let p = rng.below(s.len() as u64) as usize;
+            if p + h.len() <= s.len() {
+                s[p..p + h.len()].copy_from_slice(h);
+            }
+        }
+    }
+    if utf8_only && core::str::from_utf8(&s).is_err() {
+        return String::from_utf8_lossy(&s).as_bytes().to_vec();
+    }
+    s
+}
+
+fn ev(w: &mut TraceWriter, per: &mut HashMap<String, u64>, a: &str, idx: usize, arg: &[u8], r: &str, s: &[u8]) {
+    w.emit(&json!({"k":"op","a":a,"idx":idx,"arg":arg,"r":r,"s":s}));
+    let cls = if ["ok", "true", "false", "none"].contains(&r) { r } else { "err" };
+    *per.entry(format!("{a}:{cls}")).or_insert(0) += 1;
+}
+
+fn edit_run<const N: usize, T: SemanticString<N>>(
+    w: &mut TraceWriter,
+    per: &mut HashMap<String, u64>,
+    rng: &mut vlib::rng::Rng,
+    ops: u64,
+) {
+    // a few constructor calls, then an edit sequence on the last accepted value
+    let mut val: Option<T> = None;
+    for _ in 0..4 {
+        let b = rand_string(rng, N, false);
+        match T::new(&b) {
+            Ok(v) => {
+                ev(w, per, "new", 0, &b, "ok", v.as_bytes());
+                val = Some(v);
+            }
+            Err(e) => {
+                // the model keeps the previous content when a constructor fails; mirror that
+                let cur = val.as_ref().map(|v| v.as_bytes().to_vec()).unwrap_or_default();
+                ev(w, per, "new", 0, &b, &format!("{e:?}"), &cur);
+            }
+        }
+    }
+    let Some(mut v) = val else { return };
+    // `new` in the model replaces the content; re-establish it from the accepted value
+    let cur = v.as_bytes().to_vec();
+    ev(w, per, "new", 0, &cur, "ok", v.as_bytes());
+    let bytes: [u8; 14] = [b'a', b'.', b'/', b'\\', b'*', 0, 1, b':', b'b', 0x80, b'<', b' ', 0x7f, b'_'];
+    for _ in 0..ops {
+        let len = v.len();
+        let res = |r: Result<(), _>| match r {
+            Ok(()) => "ok".to_string(),
+            Err(e) => format!("{e:?}"),
+        };
+        let _: &dyn Fn(Result<(), iceoryx2_bb_container::semantic_string::SemanticStringError>) -> String = &res;
+        match rng.below(9) {
+            0 => {
+                let b = *rng.pick(&bytes);
+                let r = res(v.push(b));
+                ev(w, per, "push", 0, &[b], &r, v.as_bytes());
+            }
+            1 => {
+                let b = *rng.pick(&bytes);
+                let idx = rng.below(len as u64 + 1) as usize;
+                let r = res(v.insert(idx, b));
+                ev(w, per, "insert", idx, &[b], &r, v.as_bytes());
+            }
+            2 => {
+                let k = rng.range(1, 4) as usize;
+                let arg: Vec<u8> = (0..k).map(|_| *rng.pick(&bytes)).collect();
+                let idx = rng.below(len as u64 + 1) as usize;
+                let r = res(v.insert_bytes(idx, &arg));
+                ev(w, per, "insert", idx, &arg, &r, v.as_bytes());
+            }
+            3 if len > 0 => {
+                let idx = rng.below(len as u64) as usize;
+                let r = match v.remove(idx) {
+                    Ok(_) => "ok".to_string(),
+                    Err(e) => format!("{e:?}"),
+                };
+                ev(w, per, "remove", idx, &[], &r, v.as_bytes());
+            }
+            4 => {
+                let r = match v.pop() {
+                    Ok(Some(_)) => "ok".to_string(),
+                    Ok(None) => "none".to_string(),
+                    Err(e) => format!("{e:?}"),
+                };
+                ev(w, per, "pop", 0, &[], &r, v.as_bytes());
+            }
+            5 => {
+                let n = rng.below(len as u64 + 1) as usize;
+                let r = res(v.truncate(n));
+                ev(w, per, "truncate", n, &[], &r, v.as_bytes());
+            }
+            6 | 7 => {
+                // strip a real prefix / suffix of the content (most of the time) or an arbitrary one
+                let cur = v.as_bytes().to_vec();
+                let k = rng.range(1, 3).min(len.max(1) as u64) as usize;
+                let pre = rng.chance(1, 2);
+                let arg: Vec<u8> = if len >= k && rng.chance(3, 4) {
+                    if pre { cur[..k].to_vec() } else { cur[len - k..].to_vec() }
+                } else {
+                    (0..k).map(|_| *rng.pick(&[b'a', b'.', b'/', b'_'])).collect()
+                };
+                let r = if pre { v.strip_prefix(&arg) } else { v.strip_suffix(&arg) };
+                let r = match r {
+                    Ok(true) => "true".to_string(),
+                    Ok(false) => "false".to_string(),
+                    Err(e) => format!("{e:?}"),
+                };
+                ev(w, per, if pre { "strip_prefix" } else { "strip_suffix" }, 0, &arg, &r, v.as_bytes());
+            }
+            _ => {
+                // grow towards the capacity
+                let b = *rng.pick(&[b'a', b'b', b'.', b'/']);
+                let r = res(v.push(b));
+                ev(w, per, "push", 0, &[b], &r, v.as_bytes());
+            }
+        }
+    }
+}
+
+pub fn edits(args: &Args) {
+    let runs = args.num("runs", 60);
+    let ops = args.num("ops", 25);
+    let mut w = TraceWriter::create(&args.get("out").expect("--out"));
+    let mut rng = vlib::rng::Rng::new(vlib::seed_from_env().wrapping_mul(7).wrapping_add(11));
+    let mut per: HashMap<String, u64> = HashMap::new();
+    for run in 0..runs {
+        let ty = TYPES[(run % 6) as usize];
+        w.emit(&json!({"k":"reset","run":run,"ty":ty}));
+        match ty {
+            "FileName" => edit_run::<255, FileName>(&mut w, &mut per, &mut rng, ops),
+            "Path" => edit_run::<255, Path>(&mut w, &mut per, &mut rng, ops),
+            "FilePath" => edit_run::<255, FilePath>(&mut w, &mut per, &mut rng, ops),
+            "RFileName2" => edit_run::<2, RestrictedFileName<2>>(&mut w, &mut per, &mut rng, ops),
+            _ => {
+                let cap = if ty == "NodeName" { 128 } else { 255 };
+                let mut cur: Vec<u8> = vec![];
+                for _ in 0..(4 + ops / 2) {
+                    let b = rand_string(&mut rng, cap, true);
+                    match construct(ty, &b) {
+                        Some((true, back)) => {
+                            ev(&mut w, &mut per, "new", 0, &b, "ok", &back);
+                            cur = back;
+                        }
+                        Some((false, _)) => ev(&mut w, &mut per, "new", 0, &b, "rejected", &cur),
+                        None => {}
+                    }
+                }
+            }
+        }
+    }
+    w.flush();
+    println!("{}", json!({"runs":runs,"events":w.lines,"per_action":per}));
+}
